@@ -334,6 +334,38 @@ def oracle_tree(tokens, spell_of):
 REWRITE = "nsl/passes/RewriteAssignEqualOperations.py"
 
 
+def check_ctor_params_unchanged(model, col, rule):
+    """What the parser hands to an expression node's constructor (operation, operands) is what the node stores: no constructor
+    of an expression class re-binds one of its parameters to something built from *other* parameters, tables or attributes
+    (an operand swap, an operator substitution).  `p = list(p)`, `p = p or []` and the like only normalise p itself."""
+    astf = "nsl/ast/__init__.py"
+    base = model.cls(astf, "Expression")
+    n = 0
+    for ci in model.subclasses(base, strict=False):
+        init = ci.methods.get("__init__")
+        if init is None or ci.file != astf:
+            continue
+        n += 1
+        ps = {a.arg for a in init.args.args[1:]} | {a.arg for a in init.args.kwonlyargs}
+        bad = []
+        for x in ast.walk(init):
+            if not isinstance(x, (ast.Assign, ast.AugAssign)):
+                continue
+            tg = x.targets if isinstance(x, ast.Assign) else [x.target]
+            bound = {nm.id for t in tg for nm in ast.walk(t) if isinstance(nm, ast.Name) and isinstance(nm.ctx, ast.Store) and nm.id in ps}
+            if not bound:
+                continue
+            others = {nm.id for nm in ast.walk(x.value) if isinstance(nm, ast.Name) and nm.id not in ("list", "tuple", "None", "True", "False")}
+            foreign = any(isinstance(a, (ast.Attribute, ast.Subscript, ast.BinOp)) or (isinstance(a, ast.Call) and not (isinstance(a.func, ast.Name) and a.func.id in ("list", "tuple")))
+                          for a in ast.walk(x.value))
+            if isinstance(x, ast.AugAssign) or len(bound) > 1 or not others <= bound or foreign:
+                bad.append(" ".join(unparse(x).split())[:70])
+        col.check(not bad, rule, f"{astf}::{ci.name}.__init__ stores what it is given", "no parameter is re-bound from other parameters / tables",
+                  f"`{bad[0] if bad else ''}` re-binds constructor parameters of {ci.name}: the node no longer holds the operation and operands of the source expression in source order "
+                  "(the tree, its printed form and the evaluation order differ from what was written)", astf, init)
+    col.floor(rule, "expression constructors", n, 10)
+
+
 def check_rewrite_shape(model, col, rule):
     """`x op= e` is rewritten to `x = x op e` with e as ONE operand (the right-hand side of an assignment extends
     over the whole following expression): every AssignmentExpression the pass builds has that shape."""
@@ -488,6 +520,26 @@ def run(model, col, tier):
     col.check(0 <= order.find("GetLeft") < order.find("OpToStr") < order.rfind("GetRight"), "R08.5", "nsl/ast/__init__.py::BinaryExpression.__str__ order",
               "prints left operand, operator, right operand", "does not print left, operator, right in that order", "nsl/ast/__init__.py", sm)
     check_rewrite_shape(model, col, "R08.6")
+    check_ctor_params_unchanged(model, col, "R08.6")
+    rule = "R08.6"
+    # The token stream is the whole source: on a character no rule matches, the lexer's error hook steps over exactly that one
+    # character (in PLY `t.value` of t_error is the *rest of the input*; skipping by its length drops every token after it).
+    from ..paths import paths, calls_on_path
+
+    lex = next((c for c in model.classes.values() if c.file == LEXER and "t_error" in c.methods), None)
+    if lex is None:
+        raise AnchorMissing(f"{LEXER}::t_error")
+    te = lex.methods["t_error"]
+    bad = None
+    for evs, status in paths(te.body):
+        if status == "raise":
+            continue
+        skips = [c for c in calls_on_path(evs) if last_attr(c) == "skip"]
+        if len(skips) != 1 or not (len(skips[0].args) == 1 and isinstance(skips[0].args[0], ast.Constant) and skips[0].args[0].value == 1):
+            bad = bad or (skips[0] if skips else te)
+    col.check(bad is None, rule, f"{LEXER}::{lex.name}.t_error steps over one character", "t.lexer.skip(1) on every returning path",
+              f"`{unparse(bad) if isinstance(bad, ast.Call) else 'no skip'}`: after an unmatched character (a carriage return, a stray symbol) the lexer does not resume at the next "
+              "character - the rest of the expression never reaches the parser, or the lexer loops", LEXER, bad if bad is not None else te)
     # no other expression printer is transparent: a printer that returns just str(child) hides a nested binary expression
     # from the isinstance test above (the operand then prints without parentheses)
     ebase = model.cls("nsl/ast/__init__.py", "Expression")
